@@ -6,7 +6,7 @@ INFO = {
                    "gadget are present with the stated operands and relation, refuse on every path and dominate every "
                    "accepting return. The polynomial routines the proof system evaluates with (NTT, Lagrange-basis evaluation, extension, doubling) are held to their "
                    "transcription rules (R-C10.S, shared with C10: recurrences, butterflies, loops that visit every node). "
-                   "Decides the length-exactness/refusal clauses of C05 and that necessary structural part of completeness; completeness, soundness "
+                   "Hand-written Clone impls copy every field from the field of the same name (R-C05.CL) and the multithreaded gadget is held to the serial one (R-C14.*), since `every validity circuit shipped` includes clones and the multithreaded variants. Decides the length-exactness/refusal clauses of C05 and that necessary structural part of completeness; completeness, soundness "
                    "and share-linearity (algebra over field values) are NOT decided.",
     "trusted_base": ["rustc type checker and MIR construction (nightly)", "expression reconstruction over MIR (sa/expr.py)"],
     "assumptions": ["a refusal is an Err (or Ok(false) in decide) return; panics are the subject of C16"],
